@@ -87,8 +87,10 @@ reg("C15", "proof", ["contracts.stress:Stress", "contracts.density:ReducedDM", "
 
 reg("C14", "proof", ["contracts.esp:ESP",
     # the callee chain that carries the electronic part (contract of point_charge_integral = C03), re-discharged here
-    "contracts.coulomb:OneElecKernel", "contracts.coulomb:PointChargeBlock", "contracts.coulomb:PointChargeInline", "contracts.coulomb:BoysFunction"],
+    "contracts.coulomb:OneElecKernel", "contracts.coulomb:PointChargeBlock", "contracts.coulomb:PointChargeInline", "contracts.coulomb:BoysFunction",
+    "contracts.dispatch:Dispatch", "contracts.assembly:TwoSymm"],
     ["gbasis.evals.electrostatic_potential.electrostatic_potential", "gbasis.integrals.point_charge.point_charge_integral",
+     "gbasis.base_two_symm.BaseTwoIndexSymmetric.construct_array_*",
      "gbasis.integrals.point_charge.PointChargeIntegral.construct_array_contraction", "gbasis.integrals._one_elec_int._compute_one_elec_integrals"],
     extra_assumptions=["inside ESP, point_charge_integral is replaced by its contract; that contract (C03) is discharged in the same check on the real kernels",
                        "mask / case analysis by z3 (QF_NRA with square-root atoms)",
